@@ -337,12 +337,33 @@ class HHRun:
         return shared
 
 
+def boundary_cases(rng, tier):
+    """default-threshold rounding boundaries: widths w and totals n = m·w for which the float product (1.0 / w) · n lands just BELOW m, so that
+    floor(phi · n_added) = m − 1 although n_added // width = m; a key with count exactly m − 1 decides.  Queried before and after save/load
+    (a loaded sketch has an explicit phi, the original the default one)."""
+    out = []
+    ws = [w for w in range(2, 200) if any((1.0 / w) * (m * w) < m for m in range(2, 12))]
+    for w in rng.sample(ws, min(len(ws), 2 if tier == "quick" else 8)):
+        m = rng.choice([m for m in range(2, 12) if (1.0 / w) * (m * w) < m])
+        n = m * w
+        heavy = n - (m - 1) - m
+        if heavy <= m:
+            continue
+        keys = [b"hv", b"r1", b"r2"]
+        ops = [["add", 0, 0, heavy], ["add", 0, 1, m - 1], ["add", 0, 2, m], ["query", 0, None, None], ["query", 0, 2, None], ["saveload", 0],
+               ["query", 0, None, None], ["query", 0, None, "same"], ["add", 0, 0, w], ["query", 0, None, None]]
+        out.append({"depth": rng.choice([1, 2]), "width": w, "mkl": 4, "phi": None, "keys": [k.hex() for k in keys], "nsk": 1, "ops": ops})
+    return out
+
+
 def run_slice(res, rng, tier, pids, n_cases, budget_s, label="hh"):
     t0 = time.time()
     sess = Session()
     n = 0
+    corpus = boundary_cases(rng, tier)
+    res.count("default_threshold_boundary_cases", len(corpus))
     while n < n_cases and time.time() - t0 < budget_s:
-        case = gen_case(rng, tier)
+        case = corpus.pop() if corpus else gen_case(rng, tier)
         run = HHRun(case, rng).run()
         fails = [f for f in run.fails if f.get("pid", pids[0]) in pids or "pid" not in f]
         res.oracle_failures += fails[:3]
